@@ -181,6 +181,15 @@ supal_esp_update_download(char *content, unsigned short content_len) {
 		update->buff = (char *)malloc(SPI_FLASH_SEC_SIZE);
 	}
 
+	// Never take more than the announced Content-Length
+	int remaining = update->expected_file_size - update->downloaded_data_size;
+
+	if ( remaining < 0 )
+		remaining = 0;
+
+	if ( content_len > remaining )
+		content_len = remaining;
+
 	unsigned short content_offset = 0;
 
 	while(content_len > 0) {
